@@ -461,7 +461,7 @@ fn write_evidence(prop: &str, tier: Tier, seed: u64, reports: &[EngineReport], w
             "runs_per_hour": if wall > 0.0 { (total_runs as f64 / wall * 3600.0) as u64 } else { 0 },
             "seeds": format!("batch seed {seed}; run i of engine e uses mix(seed, e, i), i in 0..runs"),
             "sim_ticks": reports.iter().map(|r| r.sim_ticks).sum::<u64>(),
-            "simulated_time_covered": format!("{} exchange ticks; sum over runs of (last date reached - first date) = {} date units (dataset dates are abstract integers; most datasets step by 1, some by 7, 86400 or 1e9)", reports.iter().map(|r| r.sim_ticks).sum::<u64>(), reports.iter().map(|r| r.sim_span).sum::<i128>()),
+            "simulated_time_covered": format!("{} exchange ticks; sum over runs of (last date reached - first date) = {} date units (dataset dates are abstract integers; most datasets step by 1, some by 7, 86400 or 1e9); {} ms passed on the simulated (paused tokio) clock while slow deliveries were pending", reports.iter().map(|r| r.sim_ticks).sum::<u64>(), reports.iter().map(|r| r.sim_span).sum::<i128>(), reports.iter().map(|r| r.counters.get("f6_simulated_ms_waited_for_slow_deliveries").copied().unwrap_or(0)).sum::<u64>()),
             "faults_fired": faults,
             "probes": probes,
             "distinct_interleavings": reports.iter().map(|r| r.interleavings).sum::<u64>(),
